@@ -16,11 +16,12 @@ from vlib import core
 from vlib.core import log, ToolError
 from checks import dlib
 from checks.dlib import ARCHS, ARCH_KA, KNOWN_ARCHS
+from checks import bcj2model
 
 MANIFEST = dict(
     level="exploration",
-    technique="TLA+ spec FilterStream (BCJ reader buffer carry-over, delta ring) model-checked with TLC; TLC transition tour replayed into the real BCJReader; API traces of the real filters validated by TLC with the real constants; reference comparison against liblzma raw filter chains",
-    text="FilterStream.tla models a BCJ filter as (window K, alignment A, position-dependent conversion) and BCJReader::read as coded (4096-byte buffer scaled to 6, pos/filtered/unfiltered carry-over); TLC checks ReaderInverse, ScanPrefix and BufBound for every head placement, read-size sequence and source chunking in small scope, and DeltaInverse/DeltaHistory over the scaled history ring. The model is bound to the code by replaying an edge-covering tour of its state graph on the real readers and by TLC validation of recorded API traces (call size, returned size, source request sizes) with B=4096 and the real K/A. The byte-level claim (reader o writer = id, writer = liblzma's filter, BCJ2 reader inverts the harness encoder) is decided on everything explored: token-dense synthetic code for 8 architectures with opcodes at every offset around the buffer boundaries and the stream end, lengths 0..K+A+3, aligned start offsets up to 2^32, delta distances 1..256, the wget-* executables.",
+    technique="TLA+ specs FilterStream (BCJ reader buffer carry-over, delta ring) and Bcj2Decoder (the resumable BCJ2 decoder and BCJ2Reader::read transcribed at byte-class grain) model-checked with TLC; TLC transition tour replayed into the real BCJReader; every TLC-exported BCJ2 behaviour (input x destination-size pattern x one delivery pattern per stream) replayed into the real BCJ2Reader with the predicted result and decoder state of every call (hook H7); API traces of the real filters and of BCJ2Reader validated by TLC with the real constants; reference comparison against liblzma raw filter chains",
+    text="FilterStream.tla models a BCJ filter as (window K, alignment A, position-dependent conversion) and BCJReader::read as coded (4096-byte buffer scaled to 6, pos/filtered/unfiltered carry-over); TLC checks ReaderInverse, ScanPrefix and BufBound for every head placement, read-size sequence and source chunking in small scope, and DeltaInverse/DeltaHistory over the scaled history ring. The model is bound to the code by replaying an edge-covering tour of its state graph on the real readers and by TLC validation of recorded API traces (call size, returned size, source request sizes) with B=4096 and the real K/A. Bcj2Decoder.tla transcribes Bcj2Decoder::decode (ten states, temp[3], five-byte range-decoder initialisation, the two normalisation points, operands split over calls) and BCJ2Reader::read (refill of the wanted stream, top-up of 32-bit streams, extra_read_sizes, Interrupted, error exits); TLC checks OutputOK / NoSpuriousError / Progress / Complete / BufInv for every main-stream string up to a length bound with every flag and operand-class assignment, every destination size per call, every delivery size per source read and one Interrupted fault; the pattern-mode behaviours are exported with predicted per-call results and replayed on the real reader, and randomized longer runs (with Interrupted faults) are validated by TLC event by event. The byte-level claim (reader o writer = id, writer = liblzma's filter, BCJ2 reader inverts the harness encoder) is decided on everything explored: token-dense synthetic code for 8 architectures with opcodes at every offset around the buffer boundaries and the stream end, lengths 0..K+A+3, aligned start offsets up to 2^32, delta distances 1..256, the wget-* executables.",
     ref="4.10, 5.3, 6/C11",
     note="The per-architecture address arithmetic is not modelled (decided on explored inputs only, against liblzma). BCJ2 is exercised against the harness's own encoder written from the 7-Zip format description (never / always / random conversion policies); no foreign BCJ2 encoder exists in the sandbox. TLC results hold for the stated small constants.",
     ready=True,
@@ -305,7 +306,13 @@ def run(tier, replay=None):
     if missing:
         raise ToolError(f"vacuous exploration: no converted branch for {missing}")
 
-    ctx.cov["evaluations"] = len(cases) + len(tcases) + len(fw)
+    # ---------------------------------------------------------------- stage 4: the BCJ2 decoder state machine
+    # (spec/Bcj2Decoder.tla: model-checked over every destination / source partition, every exported behaviour
+    # replayed on the real BCJ2Reader with the predicted result and decoder state of every call, randomized real
+    # runs validated by TLC)
+    n_bcj2 = bcj2model.run(ctx, tier, rnd, classes)
+
+    ctx.cov["evaluations"] = len(cases) + len(tcases) + len(fw) + n_bcj2
     ctx.cov["distinct_nontrivial"] = len(classes)
     ctx.cov["rule"] = ("one evaluation = one filter case on the real code (writer one-shot, reader under the case's read sizes and "
                        "source chunking, reference filter); distinct = (family, architecture/policy, generator, length class, "
@@ -324,6 +331,13 @@ def run(tier, replay=None):
 
 def run_replay(ctx, path):
     rep = json.load(open(path))
+    if "bcj2_case" in rep["replay"]:
+        o = bcj2model.replay(ctx, rep["replay"]["bcj2_case"])
+        print(json.dumps({k: v for k, v in o.items() if k != "events"}, indent=1)[:3000])
+        ctx.cov["evaluations"] = 1
+        ctx.cov["distinct_nontrivial"] = 2
+        ctx.cov["rule"] = "replay of one recorded case"
+        return ctx.finish()
     c = rep["replay"]["case"]
     c["reference"] = c.get("reference", True) and c["kind"] != "bcj2"
     r = dlib.run_cases("vh_filter", [c])[0]
